@@ -45,6 +45,13 @@ func TestCheck(t *testing.T) {
 		scs = append(scs, sc)
 	} else {
 		scs = append(scs, vh.LoadCorpus[sysrun.Scenario](env, "C01")...)
+		// deep trees: an intermediate route with mute / active time intervals that gate it NOW, children without:
+		// time intervals are not inherited, the children's alerts are notified within the bound (first, so that the
+		// instance part below sees them too)
+		rd := vh.NewRand(env.Seed + 18181)
+		for i := 0; i < env.N(24, 4); i++ {
+			scs = append(scs, sysrun.GenDeepIntervals(rd.Fork()))
+		}
 		r := vh.NewRand(env.Seed)
 		n := env.N(250, 8)
 		for i := 0; i < n; i++ {
@@ -114,6 +121,7 @@ func TestCheck(t *testing.T) {
 			runI.Count("instance_groups_flushed", fmt.Sprintf("%d", stats["groups-flushed"]))
 		}
 	}
+	judgeNotifierResults(t, env, run) // notifres_hook_test.go
 	if err := run.Finish("random whole-instance scenarios (config, alert timelines, receiver fault scripts, silences, nflog GC) run under synctest virtual time; one case per aggregation group = its event list with observed outputs; non-trivial = at least 2 flushes and 1 delivered notification"); err != nil {
 		t.Fatal(err)
 	}
